@@ -56,7 +56,9 @@ fn matches(log: &Value, addr: &Option<String>, topics: &[Tf]) -> bool {
 }
 
 fn topic_filters(max_len: usize) -> Vec<Vec<Tf>> {
-    let opts = [Tf::Null, Tf::One(topic(1)), Tf::One(topic(2)), Tf::Any(vec![topic(1), topic(2)])];
+    // lists that can fail (a single alternative; one alternative that no log carries) as well as one that
+    // always matches: a later list position must not override an earlier failed one
+    let opts = [Tf::Null, Tf::One(topic(1)), Tf::One(topic(2)), Tf::Any(vec![topic(1), topic(2)]), Tf::Any(vec![topic(1)]), Tf::Any(vec![topic(2), topic(3)])];
     let mut all: Vec<Vec<Tf>> = vec![vec![]];
     let mut cur: Vec<Vec<Tf>> = vec![vec![]];
     for _ in 0..max_len {
